@@ -543,57 +543,18 @@ func (self *Value) updateByteLen(originLen int, address []int, isPacked bool, pa
 	for i := len(address) - 1; i >= 0; i-- {
 		// notice: when i == len(address) - 1, it do not change bytes length because it has been changed in replace function, just change previousType
 		pathType := path[i].t
-		addressPtr := address[i]
 		if previousType == proto.MESSAGE || (previousType == proto.LIST && isPacked) {
-			newBytes := NewBytesFromPool()
-			// tag
-			buf := rt.BytesFrom(rt.AddPtr(self.v, uintptr(addressPtr)), self.l-addressPtr, self.l-addressPtr)
-			_, tagOffset := protowire.ConsumeVarint(buf)
-			// length
-			length, lenOffset := protowire.ConsumeVarint(buf[tagOffset:])
-			newLength := int(length) + diffLen
-			newBytes = protowire.AppendVarint(newBytes, uint64(newLength))
-			// length == 0 means had been deleted all the data in the field
-			if newLength == 0 {
-				newBytes = newBytes[:0]
-			}
-
-			subLen := len(newBytes) - lenOffset
-
-			if subLen == 0 {
-				// no need to change length
-				copy(buf[tagOffset:tagOffset+lenOffset], newBytes)
-				continue
-			}
-
-			// split length
-			srcHead := rt.AddPtr(self.v, uintptr(addressPtr+tagOffset))
-			if newLength == 0 {
-				// delete tag
-				srcHead = rt.AddPtr(self.v, uintptr(addressPtr))
-				subLen -= tagOffset
-			}
-
-			srcTail := rt.AddPtr(self.v, uintptr(addressPtr+tagOffset+lenOffset))
-			l0 := int(uintptr(srcHead) - uintptr(self.v))
-			l1 := len(newBytes)
-			l2 := int(uintptr(self.v) + uintptr(self.l) - uintptr(srcTail))
-
-			// copy three slices into new buffer
-			newBuf := make([]byte, l0+l1+l2)
-			copy(newBuf[:l0], rt.BytesFrom(self.v, l0, l0))
-			copy(newBuf[l0:l0+l1], newBytes)
-			copy(newBuf[l0+l1:l0+l1+l2], rt.BytesFrom(srcTail, l2, l2))
-			self.v = rt.GetBytePtr(newBuf)
-			self.l = int(len(newBuf))
-			if isPacked {
-				isPacked = false
-			}
-			diffLen += subLen
-			FreeBytesToPool(newBytes)
+			diffLen += self.resizeLength(address[i], diffLen)
+			isPacked = false
 		}
 
 		if pathType == PathStrKey || pathType == PathIntKey {
+			// the value lives in a map entry [pairTag][pairLen][key][value], whose length changes too
+			if i > 0 && diffLen != 0 {
+				if pair, ok := self.findPair(address[i-1], address[i]); ok {
+					diffLen += self.resizeLength(pair, diffLen)
+				}
+			}
 			previousType = proto.MAP
 		} else if pathType == PathIndex {
 			previousType = proto.LIST
@@ -601,6 +562,83 @@ func (self *Value) updateByteLen(originLen int, address []int, isPacked bool, pa
 			previousType = proto.MESSAGE
 		}
 	}
+}
+
+// findPair returns the position of the map entry that contains position pos, scanning the entries from
+// the first one. The length prefix of that entry may be stale, pos must lie before its value.
+func (self *Value) findPair(first int, pos int) (int, bool) {
+	buf := self.raw()
+	if first < 0 || first >= len(buf) {
+		return 0, false
+	}
+	pairTag, n := protowire.ConsumeVarint(buf[first:])
+	if n <= 0 {
+		return 0, false
+	}
+	for cur := first; cur < pos && cur < len(buf); {
+		tag, n := protowire.ConsumeVarint(buf[cur:])
+		if n <= 0 || tag != pairTag {
+			return 0, false
+		}
+		length, m := protowire.ConsumeVarint(buf[cur+n:])
+		if m <= 0 {
+			return 0, false
+		}
+		next := cur + n + m + int(length)
+		if pos < next {
+			return cur, pos >= cur+n+m
+		}
+		cur = next
+	}
+	return 0, false
+}
+
+// resizeLength adds diffLen to the length prefix of the length-delimited field whose tag is at addressPtr,
+// and returns by how many bytes the buffer grew or shrank because of it.
+func (self *Value) resizeLength(addressPtr int, diffLen int) int {
+	newBytes := NewBytesFromPool()
+	defer FreeBytesToPool(newBytes)
+	// tag
+	buf := rt.BytesFrom(rt.AddPtr(self.v, uintptr(addressPtr)), self.l-addressPtr, self.l-addressPtr)
+	_, tagOffset := protowire.ConsumeVarint(buf)
+	// length
+	length, lenOffset := protowire.ConsumeVarint(buf[tagOffset:])
+	newLength := int(length) + diffLen
+	newBytes = protowire.AppendVarint(newBytes, uint64(newLength))
+	// length == 0 means had been deleted all the data in the field
+	if newLength == 0 {
+		newBytes = newBytes[:0]
+	}
+
+	subLen := len(newBytes) - lenOffset
+
+	if subLen == 0 {
+		// no need to change length
+		copy(buf[tagOffset:tagOffset+lenOffset], newBytes)
+		return 0
+	}
+
+	// split length
+	srcHead := rt.AddPtr(self.v, uintptr(addressPtr+tagOffset))
+	if newLength == 0 {
+		// delete tag
+		srcHead = rt.AddPtr(self.v, uintptr(addressPtr))
+		subLen -= tagOffset
+	}
+
+	srcTail := rt.AddPtr(self.v, uintptr(addressPtr+tagOffset+lenOffset))
+	l0 := int(uintptr(srcHead) - uintptr(self.v))
+	l1 := len(newBytes)
+	l2 := int(uintptr(self.v) + uintptr(self.l) - uintptr(srcTail))
+
+	// copy three slices into new buffer
+	newBuf := make([]byte, l0+l1+l2)
+	copy(newBuf[:l0], rt.BytesFrom(self.v, l0, l0))
+	copy(newBuf[l0:l0+l1], newBytes)
+	copy(newBuf[l0+l1:l0+l1+l2], rt.BytesFrom(srcTail, l2, l2))
+	self.v = rt.GetBytePtr(newBuf)
+	self.l = int(len(newBuf))
+	return subLen
 }
 
 // UnsetByPath searches longitudinally and unsets a sub value at the given path from the value.
@@ -639,7 +677,7 @@ func (self *Value) UnsetByPath(path ...Path) error {
 		p = NewPathFieldId(f.Number())
 	} 
 
-	ret, position := parentValue.findDeleteChild(p)
+	ret, _ := parentValue.findDeleteChild(p)
 	if ret.IsError() {
 		return ret
 	}
@@ -648,7 +686,7 @@ func (self *Value) UnsetByPath(path ...Path) error {
 	if err := self.replace(ret, Node{t: ret.t}); err != nil {
 		return errValue(meta.ErrWrite, "replace node by empty node failed", err)
 	}
-	address = append(address, position) // must add one address align with path length
+	address = append(address, -1) // must add one address align with path length, the child itself is gone
 	self.updateByteLen(originLen, address, isPacked, path...)
 	return nil
 }
